@@ -34,6 +34,7 @@ from ..framework import lean_driver
 PROP = "C18"
 LEAN_TARGETS = ["Eliot.Properties.C18"]
 AUDIT = "Eliot/Audit/C18.lean"
+SKELETON_TARGETS = {"Eliot.ShapesSkel.C18_shapes (E16: log_call as a statement list)": ("Eliot.Properties.ShapesSkel", "Eliot/Audit/ShapesSkel.lean", ["Eliot.ShapesSkel.logCallBody_shape"])}
 THEOREMS = [
     "LC.wrapper_transparent_partial",
     "LC.action_type_now_transparent",
